@@ -157,7 +157,15 @@ class TermRule(BaseRule):
         if isinstance(node, ast.JoinedStr):
             parts = []
             for ch, av in children:
-                parts.append(term_of(const(ch.value)) if isinstance(ch, ast.Constant) else term_of(av))
+                if isinstance(ch, ast.Constant):
+                    parts.append(term_of(const(ch.value)))
+                elif isinstance(ch, ast.FormattedValue) and (ch.format_spec is not None or ch.conversion not in (-1, None)):
+                    # {x:02X} / {x!r} are not x: keep the format spec and conversion in the term
+                    spec = ast.unparse(ch.format_spec)[2:-1] if ch.format_spec is not None else ""
+                    conv = {115: "s", 114: "r", 97: "a"}.get(ch.conversion, "")
+                    parts.append(T("fmt", term_of(av), term_of(const(spec)), term_of(const(conv))))
+                else:
+                    parts.append(term_of(av))
             return tv(T("fstr", *parts), none=False, truth=True if any(isinstance(ch, ast.Constant) and ch.value for ch, _ in children) else None)
         if isinstance(node, ast.Dict):
             return tv(T("dict", *[term_of(a) for a in avs]), none=False)
